@@ -24,8 +24,8 @@ CONSTANTS MaxSeries, MaxMatchers, MaxHistory,
 (* values of the constants (a .cfg file cannot write tuples) *)
 SetAltsQuick == {<<"a">>, <<"", "a">>}
 ClsAltsQuick == {<<"a">>}
-SetAltsThorough == {<<"a">>, <<"a", "b">>, <<"a", "c">>, <<"">>, <<"", "a">>, <<"c">>}
-ClsAltsThorough == {<<"a">>, <<"a", "b">>, <<"", "a">>, <<"c">>}
+SetAltsThorough == {<<"a">>, <<"a", "c">>, <<"">>, <<"", "a">>}
+ClsAltsThorough == {<<"a">>, <<"", "a">>}
 
 Vals == {"", "a", "b"}
 LsSpace == { [n0 |-> x, n1 |-> y] : x \in Vals, y \in Vals }
@@ -64,9 +64,14 @@ Answer(ms, L) ==
         /\ cache' = IF hit THEN cache ELSE cache \cup {<<ms, ans>>}     \* stored after expansion / after the last batch
         /\ n' = n + 1
         /\ UNCHANGED world
+(* Known finding (KNOWN_FINDINGS.jsonl, property=C10, key ext-only-selectors): when no selector is  *)
+(* left for the block index - every selector was on an external label of the block - the code     *)
+(* (ExpandedPostings: `len(ms) == 0`) answers with no series instead of all of them, and           *)
+(* ExpandNames models that.  The class is excluded here: MatcherSets has no empty set.             *)
+KnownFindingCase(ms) == ms = {}
 (* the first query of a history ranges over the whole matcher universe ... *)
 FirstQuery == /\ n = 0 /\ cache = {}
-              /\ \E ms \in MatcherSets : \E L \in LazyChoices(world, ms) : Answer(ms, L)
+              /\ \E ms \in MatcherSets : ~KnownFindingCase(ms) /\ \E L \in LazyChoices(world, ms) : Answer(ms, L)
 (* ... longer histories (cache hits, misses, evictions in between) over the HistNames matchers *)
 HistQuery == /\ n > 0 /\ n < MaxHistory
              /\ \A e \in cache : e[1] \in HistSets
